@@ -489,6 +489,8 @@ class NP:
         term = TH.colscale(lt, rt)
       elif len(ld) == 2 and len(rd) == 2 and self._eq(cx, ld[1], rd[1]) and self._eq(cx, rd[0], z3.IntVal(1)):
         term = TH.colscale2(lt, rt)
+      elif len(ld) == 2 and len(rd) == 2 and self._eq(cx, ld[0], rd[0]) and self._eq(cx, rd[1], z3.IntVal(1)):
+        term = TH.rowscale(lt, rt)
     if term is None:
       cx.note('value of array %s not modelled' % type(op).__name__)
     opn = 'sub' if isinstance(op, ast.Sub) else 'add' if isinstance(op, ast.Add) else 'other'
@@ -879,6 +881,19 @@ def install(lib):
 
   @ext('builtins.sum')
   def _sum(cx, v, *rest):
+    if isinstance(v, VListRef):
+      e = cx.p.lists[v.lid].get('elem')
+      if isinstance(e, VInt) or e is None:
+        t = fresh('sum', z3.IntSort())
+        cx.p.side.append(('assume', 'sum-of-nonnegatives', list(cx.p.pc), t >= 0, 'sum over a list')) if False else None
+        return VInt(t)
+      if isinstance(e, VReal):
+        return VReal(fresh('sum', z3.RealSort()))
+    if isinstance(v, (VList, VTuple)) and all(isinstance(x, (VInt, VReal)) for x in v.items):
+      acc = None
+      for x in v.items:
+        acc = x.t if acc is None else acc + x.t
+      return cx.ex.wrapnum(acc) if acc is not None else VInt(z3.IntVal(0))
     if isinstance(v, VArr):
       st = cx.st(v)
       return VInt(fresh('sum', z3.IntSort())) if st.kind in ('i', 'b') else VReal(fresh('sum', z3.RealSort()))
